@@ -153,6 +153,56 @@ C10_DEFUSE_PART = (G, "gosym_part", dict(name="c10_def_use", entry="internal/zzv
                                               "definition at 15 kinds of type position (the 10 of C09 plus map key, enum base, flags base, type argument, conversion target) x {main, imported "
                                               "namespace}: Validate terminates, does not panic, rejects the model and names the file"))
 
+def c10_yaml_key(aid, events, outs):
+    o = {x["key"]: (x.get("val") or "") for x in outs}
+    detail = o.get("unmarshal-panic") or o.get("validate-panic") or o.get("parse-error") or o.get("validation-error") or ""
+    for c in ("index out of range", "nil pointer", "slice bounds", "interface conversion", "makeslice", "math/big", "unreachable"):
+        if c in detail:
+            return "c10:yaml:%s:%s" % (aid, c)
+    return "c10:yaml:%s" % aid
+
+
+YAML_ASSUME = ["yaml.Node trees as yaml.v3 hands them to yardl's UnmarshalYAML methods: one document; scalar, mapping and sequence nodes; every node carries a short tag and a "
+               "position; a plain scalar's tag is the one yaml.v3 resolves for its text (one symbolic descriptor decides both); anchors / aliases / merge keys / multi-document "
+               "files and the byte -> node step itself (yaml.v3's scanner) are outside",
+               "tags, scalar texts and mapping keys are symbolic strings over finite vocabularies (22 scalar forms incl. type strings, integers beyond 64 bits, null, custom-tagged "
+               "scalars; 15 keys; 12 mapping tags; 7 sequence tags): the forks are the branches of the real code",
+               "yaml.v3 (*Node).DecodeWithOptions is a model (dispatch to the interpreted UnmarshalYAML, pointer allocation, null, scalar->int) validated by the native replays; "
+               "participle-generated parsers (type strings) are evaluated on concrete strings by a native oracle built from the tree under test",
+               "located = the error, passed through the real validation.NewValidationError as ParseYamlInDir does, carries a line; every validation error line reads <file>:<line>"]
+
+C10_YAML_CTX = {0: "Name: X (alias or tagged definition)", 1: "record field type", 2: "protocol step type", 3: "!enum / !flags {base: scalar, values: X}",
+                4: "type tag with symbolic keys {k1: X, k2: scalar}", 5: "definition names (generic parameter lists, non-string names) x record / alias",
+                6: "computed field expression (27 expression texts of every tag, !switch mappings with 7 pattern forms, sequences)",
+                10: "Name: X where a node may also be an alias (*anchor) of an anchored node elsewhere or of its enclosing node (cyclic document); termination is an obligation",
+                11: "record field type, with alias nodes", 12: "protocol step type, with alias nodes"}
+
+
+def c10_yaml_part(ctx, quick=True, depth=1, pairs=2, items=2, name=None):
+    spec = (G, "gosym_part", dict(name=name or "c10_yaml_ctx%d" % ctx, entry="internal/zzverif.C10Yaml", args_quick=(ctx, depth, pairs, items), args_thorough=(ctx, depth, pairs, items),
+                                  extra_quick=("-max-paths", "60000"), extra_thorough=("-max-paths", "400000"), key_fn=c10_yaml_key, oracle=True,
+                                  required_sites=("unmarshal-does-not-panic", "parse-error-has-line", "validate-does-not-panic"), assumptions=YAML_ASSUME,
+                                  desc="yardl's own YAML layer (pkg/dsl/yaml.go: Namespace/DefinitionMeta/RecordDefinition/ProtocolDefinition/EnumDefinition.UnmarshalYAML, UnmarshalTypeYAML, "
+                                       "Unmarshal{Vector,Array,Map,Stream,Union,Generic}..., convertType) followed by the position post-pass of ParseYamlInDir and dsl.Validate, on every node tree "
+                                       "of depth <= %d (<= %d pairs / %d items per node) in context '%s': no panic, every parse error has a line, every AST node has a position, every validation "
+                                       "error names file and line" % (depth, pairs, items, C10_YAML_CTX[ctx])))
+    return spec if quick else only_thorough(spec)
+
+
+C10_YAML = [c10_yaml_part(0), c10_yaml_part(5), c10_yaml_part(6, depth=0), c10_yaml_part(10, pairs=1, items=2), c10_yaml_part(3, quick=False), c10_yaml_part(1, quick=False), c10_yaml_part(2, quick=False),
+            c10_yaml_part(4, quick=False), c10_yaml_part(6, quick=False, name="c10_yaml_ctx6_switch"), c10_yaml_part(11, quick=False, pairs=1, items=2), c10_yaml_part(12, quick=False, pairs=1, items=2)]
+
+C13_YAML_PART = (G, "gosym_part", dict(name="c13_yaml_spellings", entry="internal/zzverif.C13Yaml", args_quick=(1,), args_thorough=(2,), oracle=True,
+                                       extra_quick=("-max-paths", "60000"), extra_thorough=("-max-paths", "400000"),
+                                       required_sites=("both-spellings-accepted-or-both-rejected", "same-schema"), assumptions=YAML_ASSUME + [
+                                           "spelling pairs: primitive aliases (int/int32, uint/uint32, long/int64, ulong/uint64, float/float32, double/float64); T? vs [null, T]; T* vs !vector {items}; "
+                                           "T*N vs !vector {items, length} (N incl. 0, 2^64-1, 2^64, 10^23); K->V vs !map {keys, values}; T[] / T[,] / T[x,y] / T[x:2,y:N] / T[2,N] vs !array with "
+                                           "dimensions as count / list / map; Box<T> vs !generic {name, args: [T] | T}; T?* vs !vector {items: [null, T]}; nested to depth 1 (2); the same type as "
+                                           "record field, protocol step and stream item",
+                                           "unions with explicit tags (!union) are a different model by design (explicitTag is part of the schema) and are not paired"],
+                                       desc="the same model written with shorthand type strings and with expanded YAML type syntax goes through the real YAML layer, dsl.Validate and the schema writer: "
+                                            "both spellings are accepted or both rejected, and the embedded schema text is identical"))
+
 C10_FORMS = {
     0: (G, "gosym_part", dict(name="c10_computed_form0", entry="internal/zzverif.C10Computed", args_quick=(1, 0), args_thorough=(1, 0), key_fn=c10_key,
                                required_sites=("validate-does-not-panic",), assumptions=C10_ASSUME,
@@ -414,7 +464,7 @@ PARTS = {
                                desc="real dsl.Validate (resolveComputedFields, GetCommonType, insertConversion) on `a op b` and `b op a` for symbolic numeric primitive types of a, b "
                                     "(13 x 13) and all 5 operators: accept/reject and static type do not depend on operand order; kind/width of the result")),
     ],
-    "C10": [C10_FORMS[f] for f in (0, 1, 3, 4, 5)] + [only_thorough(C10_FORMS[f]) for f in (2, 6)] + C10_SHAPES + [C10_GRAPH_PART, C10_PARSER_PART, C10_DEFUSE_PART],  # C10_GRAPH_PART: no hang / panic of the package loader for any import graph
+    "C10": [C10_FORMS[f] for f in (0, 1, 3, 4, 5)] + [only_thorough(C10_FORMS[f]) for f in (2, 6)] + C10_SHAPES + [C10_GRAPH_PART, C10_PARSER_PART, C10_DEFUSE_PART] + C10_YAML,  # C10_GRAPH_PART: no hang / panic of the package loader for any import graph
     "C09": [
         (G, "gosym_part", dict(name="c09_base", entry="internal/zzverif.C09Base", required_sites=("base-accepted",), assumptions=C09_ASSUME,
                                desc="the unmodified two-namespace base model validates (guards against an over-rejecting harness)")),
@@ -469,6 +519,7 @@ PARTS = {
                                             "lines directly above the element, each without its '#' and one optional following space, joined by newlines"],
                                desc="the real dsl.normalizeComment on a symbolic head comment: result equals the independently specified attached block, and prepending detached "
                                     "comment blocks / blank lines (non-documentation comments, whitespace) never changes it")),
+        C13_YAML_PART,
     ],
     "C01": [
         (CC, "c01_cc_kernels", dict()),
